@@ -35,6 +35,8 @@ def gen_case(g, stream):
     dtype = g.choice(DTYPES) if stream == "well" else "float64"
     c = {"kind": "ridge", "stream": stream, "d": d, "o": o, "layout": layout, "lens": lens, "warmup": warm,
          "bias": bias, "dtype": dtype}
+    if dtype == "float32" and g.chance(0.6):
+        c["wide32"] = True
     if stream == "well":
         c["ridge"] = g.choice([0.25, 0.5, 1.0, 3.0, 2.0 ** -6])
     else:
@@ -45,6 +47,11 @@ def gen_case(g, stream):
             lo, hi = (0, 200) if dtype == "uint8" else (-100, 100)
             X = [[float(g.randint(lo, hi)) for _ in range(d)] for _ in range(L)]
             Y = [[float(g.randint(-5, 5)) for _ in range(o)] for _ in range(L)]
+        elif dtype == "float32" and c.get("wide32"):
+            # float32 values whose products are NOT representable in float32 (18 significant bits, a common
+            # offset): exact in float64, rounded if anything is multiplied or summed in single precision
+            X = [[float(np.float32(40 + g.randint(-2048, 2048) / 4096.0)) for _ in range(d)] for _ in range(L)]
+            Y = [g.dyvec(o, a=2, k=12) for _ in range(L)]
         else:
             X = [g.dyvec(d, a=3, k=16) for _ in range(L)]
             Y = [g.dyvec(o, a=2, k=12) for _ in range(L)]
